@@ -752,3 +752,262 @@ def check_C18(ctx, rep):
     peek_nonstrict(ctx, rep, 'C18.R4', 'peek_scheduled_internal_timer', 'timer')
     rep.assumptions += ['expiry selection order among several due items is NOT decided', 'every CFG path is treated as feasible']
     return 'handler tables for internal timers in the simulator: start rule, store/TimerBegin pairing, fire-once expiry, eligibility of due-now timers'
+
+
+# =================================================================== C19
+
+def post_dominators(cfg):
+    """immediate-ish post dominator sets over the CFG (virtual exit joins all returns / dead ends)"""
+    nodes = sorted(cfg.reach)
+    exits = [n for n in nodes if not cfg.succ[n]]
+    full = set(nodes)
+    pdom = {n: set(full) for n in nodes}
+    for e in exits:
+        pdom[e] = {e}
+    changed = True
+    while changed:
+        changed = False
+        for n in nodes:
+            if n in exits:
+                continue
+            ss = [y for (y, l) in cfg.succ[n]]
+            new = set.intersection(*[pdom[y] for y in ss]) | {n} if ss else {n}
+            if new != pdom[n]:
+                pdom[n] = new
+                changed = True
+    return pdom
+
+
+def check_C19(ctx, rep):
+    prog, an = ctx.prog, ctx.an
+    rep.rule('C19.R1', 'ambient effects reachable from sim_advanced are exactly the sanctioned ones: rand::thread_rng in SimState::new only on the '
+             'None arm of insecure_rng_seed and in Integration::{action,reporting,trigger}_delay (integration delays are excluded by the '
+             'property), the log facade\'s statics, and the membership-only HashSet of State::validate; the client framework is seeded with '
+             'the seed, the server with seed.wrapping_add(1), both through Xoshiro256StarStar::seed_from_u64')
+    rep.rule('C19.R2', 'filter purity: only_client_events / only_network_activity are read only in sim_advanced, only as branch conditions whose '
+             'controlled region (up to the immediate post-dominator) contains nothing but building and pushing the trace entry')
+    rep.rule('C19.R3', 'no narrowing integer cast feeds a divisor in the simulator')
+    rep.rule('C19.R4', 'stop structure: every path around the main loop passes the sim_iterations increment and the max_sim_iterations and '
+             'max_trace_length comparisons; every self-call of pick_next is preceded on its path by a consuming operation')
+    sa = sim_fn(prog, 'sim_advanced')
+    saa = an.get(sa)
+    rep.analysed(sa)
+    # ---- R1
+    cl = Closure(prog, [sa] + prog.closures_of(sa))
+    effs = cl.effects()
+    rep.extra['call_graph'] = {'functions_reached': len(cl.nodes), 'leaf_calls_without_facts': len(cl.leaves), 'parameter_calls': cl.param_calls,
+                               'crates_reached': sorted({f.crate for f in cl.nodes.values()})}
+    rep.count_floor('C19.R1', 'functions in the closure of sim_advanced', len(cl.nodes), 100)
+    sanctioned_rng = {('SimState', 'new'), ('Integration', 'action_delay'), ('Integration', 'reporting_delay'), ('Integration', 'trigger_delay')}
+    hit = set()
+    for (kind, k, path) in effs:
+        caller = prog.fns.get(k)
+        cname = caller.short() if caller else k
+        adt = (caller.impl_adt or '').split('::')[-1] if caller else ''
+        if kind == 'os-randomness' and 'thread_rng' in path and caller is not None and caller.crate == SIM and (adt, caller.name) in sanctioned_rng:
+            hit.add((adt, caller.name))
+            rep.ob('C19.R1', caller, 'sanctioned:thread_rng', True, 'thread_rng in %s' % cname)
+            continue
+        if caller is not None and caller.crate in ('rand', 'rand_core', 'getrandom', 'rand_chacha', 'std', 'core', 'alloc', 'log'):
+            # internals of the sanctioned sources themselves
+            root = cl.chain(k)
+            continue
+        if kind == 'hash-order' and caller is not None and caller.crate == 'maybenot' and caller.name == 'validate':
+            m = path.split('::')[-1]
+            rep.ob('C19.R1', caller, 'sanctioned-hashset:' + m, m in ('new', 'contains', 'insert') and 'HashSet' in path, path)
+            continue
+        if kind == 'mutable-static' and (path.startswith('log::') or (caller is not None and caller.crate == 'log')):
+            continue
+        rep.ob('C19.R1', cname, 'effect:%s:%s' % (kind, path.split('<')[0][-50:]), False, '%s source %s reachable via %s' % (kind, path, ' -> '.join(cl.chain(k)[-5:])))
+    rep.ob('C19.R1', '<inventory>', 'sanctioned-rng-sites', hit <= sanctioned_rng, 'thread_rng call sites: %s' % sorted(hit))
+    # internals reachable only through sanctioned callers: every function of rand/getrandom in the closure is reached through them
+    # thread_rng in SimState::new only under None
+    sn = prog.fn(SIM, 'SimState', 'new')
+    sna = an.get(sn)
+    spf = an.paths(sn, history=True)
+    for (b, f, a, t) in calls(sna):
+        if 'thread_rng' in callee_str(f):
+            ok, w = all_paths(spf.at_entry(b), lambda S: any(f2[0] == 'variant' and f2[2] == 'None' and f2[1] in (('param', 6), ('load', ('local', 6))) or
+                                                            (f2[0] == 'variant' and f2[2] == 'None' and contains(f2[1], lambda y: y == ('param', 6))) for f2 in S))
+            rep.ob('C19.R1', sn, 'thread_rng-only-without-seed', ok, '')
+        if callee_str(f).endswith('seed_from_u64'):
+            okx = 'Xoshiro256StarStar' in callee_str(f) or 'Xoshiro256StarStar' in str(f.get('rargs', '')) + str(f.get('args', ''))
+            oks = contains(a[0], lambda y: y == ('param', 6))
+            rep.ob('C19.R1', sn, 'seeded-generator-from-seed', okx and oks, 'seed_from_u64(%s)' % show(a[0]))
+    # seeds passed by sim_advanced
+    snew = [(b, f, a, t) for (b, f, a, t) in calls(saa) if callee_key(f) == sn.key]
+    rep.count_exact('C19.R1', 'SimState::new call sites in sim_advanced', len(snew), 2)
+    seeds = []
+    for (b, f, a, t) in snew:
+        seeds.append(a[5])
+    direct = [s for s in seeds if is_field(s, 'insecure_rng_seed', 'SimulatorArgs')]
+    mapped = [s for s in seeds if is_call(s, 'Option::<T>::map') and is_field(s[2][0], 'insecure_rng_seed', 'SimulatorArgs')]
+    rep.ob('C19.R1', sa, 'client-seed-is-the-seed', len(direct) == 1, '%s' % [show(s)[:60] for s in seeds])
+    okm = len(mapped) == 1
+    if okm:
+        clo = mapped[0][2][1]
+        okm = clo[0] == 'closure' and clo[1] in prog.fns
+        if okm:
+            ca = an.get(prog.fns[clo[1]])
+            rv = [v for (b, k, v) in ret_defs(ca)]
+            okm = len(rv) == 1 and is_call(rv[0], 'wrapping_add') and rv[0][2][0] == ('param', 2) and is_const(rv[0][2][1], 1)
+    rep.ob('C19.R1', sa, 'server-seed-is-seed-wrapping-plus-one', okm, 'server seed = %s' % ([show(s)[:80] for s in seeds if s not in direct]))
+    # ---- R2
+    filt = ('only_client_events', 'only_network_activity')
+    for fn in prog.crate_fns(SIM):
+        if not fn.has_body or fn.derived:
+            continue
+        fa2 = an.get(fn)
+        for b in fa2.cfg.reach:
+            bb = fa2.blocks[b]
+            for k, s in enumerate(bb['s']):
+                if 'p' in s and s['rv']['k'] != 'setdiscr':
+                    e = fa2.rvalue(s['rv'], (b, k))
+                    for fl in filt:
+                        if contains(e, lambda y: isinstance(y, tuple) and y and y[0] == 'fld' and y[3] == fl and y[2].endswith('SimulatorArgs')):
+                            if s['rv']['k'] == 'agg':
+                                rep.ob('C19.R2', fn, 'filter-initialised:' + fl, fn.name == 'new' and (fn.impl_adt or '').endswith('SimulatorArgs'), 'constructed in %s' % fn.short())
+                            else:
+                                rep.ob('C19.R2', fn, 'filter-read-in:' + fl, fn is sa, '%s read in %s' % (fl, fn.short()))
+    pd = post_dominators(saa.cfg)
+    dom = saa.cfg.dom()
+    n_sw = 0
+    for (b, e) in switch_conditions(saa):
+        which = [fl for fl in filt if contains(e, lambda y: isinstance(y, tuple) and y and y[0] == 'fld' and y[3] == fl)]
+        if not which:
+            continue
+        n_sw += 1
+        # immediate post dominator: the post-dominator (other than b) that is post-dominated by all others... choose the nearest
+        cands = pd[b] - {b}
+        ipd = None
+        for c in cands:
+            if all(c2 == c or c2 in pd[c] for c2 in cands):
+                ipd = c
+        if ipd is None:
+            rep.ob('C19.R2', sa, 'filter-branch-reconverges:' + which[0], False, 'no post-dominator')
+            continue
+        region = set()
+        st = [y for (y, l) in saa.cfg.succ[b]]
+        while st:
+            x = st.pop()
+            if x == ipd or x in region:
+                continue
+            region.add(x)
+            st.extend(y for (y, l) in saa.cfg.succ[x])
+        bad = []
+        for x in region:
+            t = saa.blocks[x]['t']
+            if t['k'] == 'call' and 'indirect' not in t['f']:
+                cs = callee_str(t['f'])
+                crate = t['f'].get('crate')
+                if crate in (SIM, 'maybenot') and not (cs.endswith('Clone>::clone') or cs.endswith('::clone')):
+                    bad.append(cs)
+                if cs.endswith('Vec::<T, A>::push') or cs.endswith('::fmt') or 'fmt::' in cs or 'format' in cs or cs.endswith('clone') or 'ops::arith' in cs or crate in ('core', 'alloc', 'std', 'log'):
+                    continue
+            if t['k'] == 'return':
+                bad.append('return')
+            for k, s in enumerate(saa.blocks[x]['s']):
+                if 'p' in s and any(pr in ('*', '*raw') for pr in s['p']['pr']):
+                    pe = saa.place_expr(s['p'], (x, k))
+                    if root_of(pe)[0] == 'param':
+                        bad.append('store ' + show(pe))
+        # leaving the loop from inside the region
+        loops = saa.cfg.loops()
+        rep.ob('C19.R2', sa, 'filter-controls-only-trace-push:' + '+'.join(which), not bad, 'region of %d blocks up to the join; foreign effects: %s' % (len(region), bad[:4]))
+        # the join is inside the same loop iteration (the filter cannot skip the stop checks)
+    rep.count_floor('C19.R2', 'branches on the filter flags', n_sw, 2)
+    # ---- R3 divisors
+    n_div = 0
+    for fn in prog.crate_fns(SIM):
+        if not fn.has_body or fn.derived:
+            continue
+        fa2 = an.get(fn)
+        for b in sorted(fa2.cfg.reach):
+            bb = fa2.blocks[b]
+            t = bb['t']
+            at = (b, len(bb['s']))
+            div = None
+            if t['k'] == 'call' and 'indirect' not in t['f'] and (callee_decl(t['f']).endswith('ops::arith::Div::div') or callee_decl(t['f']).endswith('ops::arith::Rem::rem') or callee_decl(t['f']).endswith('DivAssign::div_assign')):
+                div = fa2.operand(t['a'][1], at)
+            elif t['k'] == 'assert' and t['mk'] == 'DivisionByZero':
+                c = fa2.operand(t['c'], at)
+                div = c
+            if div is None:
+                continue
+            n_div += 1
+            narrowing = [x for x in walk(div) if isinstance(x, tuple) and x and x[0] == 'cast' and x[1] == 'IntToInt' and int_width(x[2]) < int_width(cast_from(x))]
+            rep.ob('C19.R3', fn, 'divisor:%s' % shape(div)[:50], not narrowing, 'divisor %s%s' % (shape(div), ' contains a narrowing cast' if narrowing else ''), site='%s:%d' % (fn.file, bb['ln']))
+    rep.count_floor('C19.R3', 'divisions in the simulator', n_div, 1)
+    # ---- R4
+    loops = saa.cfg.loops()
+    main = [h for h, body in loops.items() if any(callee_str(f).endswith('pick_next') for (b, f, a, t) in calls(saa) if b in body)]
+    rep.count_exact('C19.R4', 'main loops in sim_advanced', len(main), 1)
+    for h in main:
+        body = loops[h]
+        inc = set()
+        # the iteration counter: the plain local compared with max_sim_iterations
+        counters = set()
+        for (b, e) in switch_conditions(saa):
+            if b in body and e[0] == 'bin' and contains(e, lambda y: isinstance(y, tuple) and y and y[0] == 'fld' and y[3] == 'max_sim_iterations'):
+                for side in (e[2], e[3]):
+                    if not contains(side, lambda y: isinstance(y, tuple) and y and y[0] == 'fld'):
+                        t = saa.blocks[b]['t']
+                        # find the local behind this operand
+                        for st_ in saa.blocks[b]['s']:
+                            if 'p' in st_ and st_['rv']['k'] == 'bin':
+                                for o in (st_['rv']['l'], st_['rv']['r']):
+                                    pl = o.get('c') or o.get('m')
+                                    if pl is not None and not pl['pr']:
+                                        sd = saa.single_def(pl['l'])
+                                        if sd is not None and sd[1] < len(saa.blocks[sd[0]]['s']):
+                                            rv2 = saa.blocks[sd[0]]['s'][sd[1]]['rv']
+                                            if rv2['k'] == 'use' and ('c' in rv2['x'] or 'm' in rv2['x']) and not (rv2['x'].get('c') or rv2['x'].get('m'))['pr']:
+                                                counters.add((rv2['x'].get('c') or rv2['x'].get('m'))['l'])
+        for l in counters:
+            for (bb_, kk_, part) in saa.defs().get(l, []):
+                if bb_ in body:
+                    v = saa.def_value(l, bb_, kk_)
+                    if v[0] == 'bin' and v[1] == 'Add' and is_const(v[3], 1):
+                        inc.add(bb_)
+        lo, hi = min_max_on_paths(saa, h, inc, body, stop_at_header=True)
+        rep.ob('C19.R4', sa, 'every-iteration-counts', bool(inc) and lo >= 1, 'iteration counter increments on paths around the main loop: min %s' % lo)
+        for fl in ('max_sim_iterations', 'max_trace_length'):
+            chk = {b for (b, e) in switch_conditions(saa) if b in body and e[0] == 'bin' and e[1] in ('Ge', 'Gt', 'Le', 'Lt', 'Eq') and
+                   contains(e, lambda y: isinstance(y, tuple) and y and y[0] == 'fld' and y[3] == fl) and num(e[2]) is None and num(e[3]) is None}
+            # paths that continue looping must have evaluated the limit (or its `> 0` gate was false)
+            gate = {b for (b, e) in switch_conditions(saa) if b in body and contains(e, lambda y: isinstance(y, tuple) and y and y[0] == 'fld' and y[3] == fl)}
+            lo, hi = min_max_on_paths(saa, h, gate, body, stop_at_header=True)
+            rep.ob('C19.R4', sa, 'every-iteration-checks:' + fl, bool(chk) and lo >= 1, 'tests of %s on paths around the main loop: min %s' % (fl, lo))
+    pn = sim_fn(prog, 'pick_next')
+    pa = an.get(pn)
+    rep.analysed(pn)
+    consuming = ('pop_aggregate_delay', 'do_internal_timer', 'do_scheduled_action')
+    rc = lambda f: any(callee_str(f).endswith(c) for c in consuming)
+    rs = lambda pe, val: is_field(pe, 'blocking_until', 'SimState')
+    ppf = an.paths(pn, history=True, record_calls=rc, record_stores=rs, tag='consume')
+    n_self = 0
+    for (b, f, a, t) in calls(pa):
+        if callee_key(f) == pn.key:
+            n_self += 1
+            ok, w = all_paths(ppf.at_entry(b), lambda S: any(f2[0] == 'called' for f2 in S) or any(f2[0] == 'stored' and f2[3][0] == 'agg' and f2[3][2] == 'None' for f2 in S))
+            rep.ob('C19.R4', pn, 'self-call-after-consuming-step', ok and bool(ppf.at_entry(b)), '' if ok else show_facts(w))
+    rep.count_floor('C19.R4', 'self-calls of pick_next', n_self, 3)
+    rep.assumptions += ['the five BUG: assertions and monotone time are NOT decided (they depend on queue contents)',
+                        'exact sub-sequence equality under max_trace_length is NOT decided', 'integration delays are excluded by the property',
+                        'Network pps = Some(0) is not a valid argument']
+    return 'ambient-effect closure of the simulator, seed derivation, purity of the output filters, divisor casts, stop structure of the main loop and of pick_next'
+
+
+def int_width(ty):
+    t = ty.strip()
+    for w in ('128', '64', '32', '16', '8'):
+        if t.endswith(w):
+            return int(w)
+    if t.endswith('size'):
+        return 64
+    return 64
+
+
+def cast_from(x):
+    """source type of a cast node"""
+    return x[4] if len(x) > 4 and x[4] else 'usize'
